@@ -513,7 +513,7 @@ fn compress_backtrack(outputdata: &mut Vec<u8>, buffer: &Buffer, fonts: &[usize]
                             }
                         }
                         Compression::Full => {
-                            end_run = cur != run_ch;
+                            end_run = cur != run_ch || cur.get_font_page() != run_ch.get_font_page();
                         }
                     }
                 }
@@ -548,7 +548,7 @@ fn compress_backtrack(outputdata: &mut Vec<u8>, buffer: &Buffer, fonts: &[usize]
             } else {
                 run_buf.clear();
                 if x + 1 < buffer.get_width() {
-                    if cur == next {
+                    if cur == next && cur.get_font_page() == next.get_font_page() {
                         run_mode = Compression::Full;
                     } else if cur.ch == next.ch {
                         run_mode = Compression::Char;
